@@ -280,3 +280,7 @@ package core
 //@
 //@ func (*pipe).SetPrivate
 //@   ensures p.data == i
+
+// ---- round 7: the backoff never shrinks below the delay just used (except to the configured maximum) ----
+//@ func (*dialer).dial
+//@   before call:AfterFunc#1 assert rtime >= 0 ==> d.reconnTime >= rtime || d.reconnTime == d.reconnMaxTime
